@@ -24,6 +24,7 @@ type genState struct {
 	plainStep       bool              // the batch just generated is executed once, without the fault sweep
 	softBits        bool              // bit-metric vectors also take fractional values
 	bigAt           int               // step of the oversized rejected insert request (profile c07), 0 = none
+	bigHuge         bool              // the oversized batch takes the thorough-tier size
 	tagOK           bool              // histories that may contain the tagged known-finding request shape (F14)
 	sent            map[uuid.UUID]Val // approximate bookkeeping of what is stored (only to pick interesting values)
 	maxSize         int
@@ -66,6 +67,7 @@ func newGen(profile string, seed uint64, idx int) *genState {
 	g.tagOK = idx%3 == 0
 	if profile == "c07" && idx%16 == 5 {
 		g.bigAt = 2 + r.IntN(3)
+		g.bigHuge = idx%160 == 5 // thorough tier: one history in 160 gets the 5000-point batch (45 s of Coq per observation)
 	}
 	g.large = large
 	g.schema = g.pickSchema(idx)
@@ -658,7 +660,7 @@ func (g *genState) genBatch(step int) batchSpec {
 		// whose LAST point carries an id that is already stored: rejected inside the transaction, nothing may stay
 		if live := g.liveIds(); len(live) > 0 {
 			n := 1100 + r.IntN(200) // quick tier; the thorough tier uses 5000..7000 (VERIF_BIGN, set by runC07)
-			if v, err := strconv.Atoi(os.Getenv("VERIF_BIGN")); err == nil && v > 0 {
+			if v, err := strconv.Atoi(os.Getenv("VERIF_BIGN")); err == nil && v > 0 && g.bigHuge {
 				n = v + r.IntN(v/3+1)
 			}
 			b := batchSpec{kind: 0}
